@@ -50,8 +50,9 @@ META = {
 # workloads
 # ------------------------------------------------------------------------------------------------
 
-def seq_case(lf, seq, fmt, threads, verify, sort, idx, check=True, ew=False):
-    """explicit arguments f0.lua f1.luau ... in the order of `seq`."""
+def seq_case(lf, seq, fmt, threads, verify, sort, idx, check=True, as_dir=False):
+    """explicit arguments f0.lua f1.luau ... in the order of `seq`; with as_dir the same files are created
+    in that order inside d/ and reached through the directory argument."""
     need_v = "V" in seq
     opts = {"check": check, "format": fmt, "verify": bool(verify or need_v), "sort": bool(sort or need_v), "threads": threads}
     cfg_ = ftree.config_for(opts)
@@ -59,6 +60,8 @@ def seq_case(lf, seq, fmt, threads, verify, sort, idx, check=True, ew=False):
     for i, c in enumerate(seq):
         k = idx * 10 + i
         name = f"f{i}.lua" if (idx + i) % 3 else f"f{i}.luau"
+        if as_dir:
+            name = "d/" + name
         if c == "M":
             targets.append(f"missing{i}.lua")
             continue
@@ -78,7 +81,10 @@ def seq_case(lf, seq, fmt, threads, verify, sort, idx, check=True, ew=False):
             if c == "C":
                 env[ftree.MARKER_ENV] = ftree.MARKER
         targets.append(name if (idx + i) % 4 else "./" + name)
-    return ftree.make_case(files, opts, targets, env, inject, tag="seq:" + "".join(seq))
+    if as_dir:
+        files["d/zz_other.txt"] = "not   lua  =  1\n"
+        targets = ["d" if idx % 2 else "./d"]
+    return ftree.make_case(files, opts, targets, env, inject, tag=("dirseq:" if as_dir else "seq:") + ",".join(seq))
 
 
 def dir_case(lf, fmt, threads, variant, check=True):
@@ -340,7 +346,7 @@ def judge(case, obs, lf):
                 "exit 1 instead of 2: the output thread overwrote the status 2 stored by a concurrently logged error "
                 f"(EXIT_CODE trace: {' / '.join(' '.join(t) for t in obs['exit_trace'])}); classes {ftree.class_multiset(mdl)}")
         else:
-            add("exit-status", f"exit:{exp}:{obs['rc']}:{fmt}",
+            add("exit-status", f"exit:{exp}:{fmt}",
                 f"C13:exit:expected={exp}:got={obs['rc']}:classes={ftree.bad_classes(mdl)}:format={fmt}",
                 f"exit status {obs['rc']}, model says {exp}; classes {ftree.class_multiset(mdl)}; missing arguments {mdl['missing']}; "
                 f"stderr: {obs['err'].decode('utf-8', 'replace')[:300]}")
@@ -435,6 +441,8 @@ class Tally:
         for fl in ("verify", "sort", "spaces", "verbose", "globs"):
             if o.get(fl):
                 self.count("flag." + fl)
+        for k, v in (mdl.get("counters") or {}).items():
+            self.count(k, v)
         for i in mdl["selected"].values():
             self.count("class." + i["cls"])
         if mdl["missing"]:
